@@ -1,7 +1,8 @@
 (* C19 - refinement of the store-level model by the value-level model: a store subtree that is
    tree-shaped (no node reachable twice) represents a value-level tree; every store operation
    maps such a representation of t to a representation of (value operation t). *)
-From DV Require Import Base.Prelude Model.BTreeM Model.BTreeStoreM Proofs.BTreeBase Proofs.BTreeWf Proofs.BTreeStore.
+From DV Require Import Base.Prelude Model.BTreeM Model.BTreeStoreM Proofs.BTreeBase Proofs.BTreeWf Proofs.BTreeInsert
+  Proofs.BTreeDelete Proofs.BTreeStore.
 
 (* rep s id tr fp : the nodes fp (all distinct) of store s form, below id, exactly the tree tr *)
 Inductive rep (s : store) : nat -> tree -> list nat -> Prop :=
@@ -1138,10 +1139,6 @@ Proof.
   destruct (split_at i pes) as [((ea & pe) & eb)| |]; cbn [bind]; try discriminate.
   destruct self, rgt. intros H; inversion H; subst. cbn. rewrite !app_length. cbn. lia.
 Qed.
-
-(* the index of the child that has grown: the one the deletion continues in *)
-Definition grown (p p' : tree) (i : nat) : nat :=
-  if (length (n_kids p') <? length (n_kids p))%nat && (0 <? i)%nat then (i - 1)%nat else i.
 
 Lemma fr_step s s1 s2 fp fp1 fp2 :
   fr s s1 fp -> sub s fp fp1 -> fr s1 s2 fp1 -> sub s1 fp1 fp2 -> fr s s2 fp /\ sub s fp fp2.
